@@ -48,7 +48,7 @@ func NewHopByHopModifier() martian.RequestResponseModifier {
 // well as any additional hop-by-hop headers specified in the
 // Connection header.
 func (m *hopByHopModifier) ModifyRequest(req *http.Request) error {
-	removeHopByHopHeaders(req.Header)
+	removeHopByHopHeaders(req.Header, true)
 	return nil
 }
 
@@ -56,16 +56,22 @@ func (m *hopByHopModifier) ModifyRequest(req *http.Request) error {
 // well as any additional hop-by-hop headers specified in the
 // Connection header.
 func (m *hopByHopModifier) ModifyResponse(res *http.Response) error {
-	removeHopByHopHeaders(res.Header)
+	removeHopByHopHeaders(res.Header, false)
 	return nil
 }
 
-func removeHopByHopHeaders(header http.Header) {
+// keepVia: a request's Via chain is what loop detection reads and what this
+// proxy's entry is appended to; a Connection header naming Via must not make
+// it disappear before that.
+func removeHopByHopHeaders(header http.Header, keepVia bool) {
 	// Additional hop-by-hop headers may be specified in `Connection` headers.
 	// http://tools.ietf.org/html/draft-ietf-httpbis-p1-messaging-14#section-9.1
 	for _, vs := range header["Connection"] {
 		for _, v := range strings.Split(vs, ",") {
 			k := http.CanonicalHeaderKey(strings.TrimSpace(v))
+			if keepVia && k == "Via" {
+				continue
+			}
 			header.Del(k)
 		}
 	}
